@@ -45,11 +45,15 @@ def convection_order(ctx, rng, idx):
     nm = int(rng.integers(1, 4))
     modes = [(k, float(rng.uniform(0.3, 1.0)) / k, float(rng.uniform(0, 2 * np.pi))) for k in sorted(rng.choice([1, 2, 3], nm, replace=False))]
     iname = str(rng.choice(["rk4", "rk3ssp"]))
+    big_steps = bool(rname0 == "extrapol3" and iname == "rk4" and rng.random() < 0.7)
     # at least ~13 cells per shortest wavelength on the coarsest level (asymptotic regime), more for first order and limiters
     n0 = int(rng.choice([40, 48, 56])) * (2 if (rname0 == "extrapol1" or rname0.startswith("muscl")) else 1)
     levels = [n0 * 2 ** j for j in range(4)]
     T = float(rng.uniform(0.15, 0.3)) * L / abs(a)
-    errs, hs, emax = [], [], []
+    # the state is also requested at two earlier times of the same run (anywhere inside a step): every returned snapshot is a solution
+    # at its own time and converges at the design order, not only the last one
+    Tmid = sorted(float(T * rng.uniform(0.35, 0.95)) for _ in range(2))
+    errs, hs, emax, errs_mid = [], [], [], [[], []]
     x0 = float(rng.choice([0.0, np.round(rng.uniform(-3, 3), 3), -L / 2]))      # the origin of the periodic domain is arbitrary
     mk = int(rng.integers(4))                                                  # ... and so is the class that builds the uniform mesh
     for n in levels:
@@ -60,8 +64,13 @@ def convection_order(ctx, rng, idx):
         f0 = ffield.fdata(model, mesh, [_cellavg_modes(mesh.xf, modes, 0.0)])
         cfl = 0.4 * (levels[0] / n) ** (0.0 if iname == "rk4" else 0.34) * (0.5 if rname0 == "extrapol3" else 1.0)
         cfl = min(cfl, 0.4)
-        sol = gen.integ(iname)(mesh, disc).solve(f0, cfl, [T])
+        if big_steps:
+            cfl = 0.8       # fourth-order time stepping well inside its stability range: steps four times longer, so that whatever is done
+            #                 to the state between two steps (a request served inside a step) weighs 16 times more against the h^3 error
+        sol = gen.integ(iname)(mesh, disc).solve(f0, cfl, Tmid + [T])
         fe = sol[-1]
+        for j_ in range(2):
+            errs_mid[j_].append(float(np.sum(mesh.vol() * np.abs(sol[j_].data[0] - _cellavg_modes(mesh.xf, modes, a * sol[j_].time))) / L))
         exact = _cellavg_modes(mesh.xf, modes, a * fe.time)
         errs.append(float(np.sum(mesh.vol() * np.abs(fe.data[0] - exact)) / L))
         emax.append(float(np.max(np.abs(fe.data[0] - exact))))
@@ -73,6 +82,11 @@ def convection_order(ctx, rng, idx):
     ctx.describe(recon=rname0 if kk is None else "extrapolk(%g)" % kk, convcoef=a, length=L, x0=x0, mesh_class=["unimesh", "mesh1d", "morphedmesh(identity)", "refinedmesh(ratio=1)"][mk], modes=modes, integrator=iname, levels=levels, T=T, errors=errs, slope=slope, last_order=last)
     slope = float(np.polyfit(np.log(hs[1:]), np.log(errs[1:]), 1)[0])      # three finest levels
     ctx.true("order", np.all(np.isfinite(errs)) and lo <= slope <= hi, "convection-order/%s/outside-design-band" % rname0, {"slope": slope, "band": [lo, hi], "errors": errs, "levels": levels}, cls="order:" + rname0)
+    for j_ in range(2):
+        em = np.array(errs_mid[j_])
+        sm = float(np.polyfit(np.log(hs[1:]), np.log(em[1:]), 1)[0]) if np.all(np.isfinite(em)) and np.all(em > 0) else float("nan")
+        ctx.true("order-intermediate-snapshot", lo <= sm <= hi, "convection-order/%s/intermediate-snapshot-outside-design-band" % rname0,
+                 {"slope": sm, "band": [lo, hi], "errors": em, "levels": levels, "time": Tmid[j_], "T": T}, cls="order:" + rname0)
     if not rname0.startswith("muscl"):
         # linear schemes: the order holds in the maximum norm too (a first-order error confined to a few cells -- at the periodic
         # seam, say -- is invisible in L1 for a second-order scheme); limiters clip extrema, so their maximum-norm order is lower
